@@ -159,6 +159,16 @@ def check(case):
         # one shared bracket: use the first component's bracket for all (other components see whatever it contains)
         for f in fns[1:]:
             f.a, f.b = fns[0].a, fns[0].b
+    for f_ in fns:
+        # a drawn scale times a wide bracket may leave the range of the working precision (float32: 1e30 x (1e6)^3): the scale is
+        # taken down until the function is finite at both ends of its bracket
+        for _ in range(8):
+            with np.errstate(all="ignore"):
+                ends_ = [float(f_(f_.a)), float(f_(f_.b))]
+            if all(np.isfinite(v) for v in ends_):
+                break
+            f_.s = f_.s / dt(1e8)
+        f_.calls = 0
     viols = []
     labels = ["dtype:" + case["dtype"], "n={}".format(n if n <= 3 else ">3"), "tol:" + str(tol), "shared_bracket" if case["shared"] else "own_brackets"]
     sigd = case["dtype"]
